@@ -103,6 +103,7 @@ func (x *runner) sweeps() {
 	fo := `"transform_declarations":{"FINAL_OUTPUT":{"object":{"a":{"xpath":"a"}}}}`
 	fam = append(fam,
 		fs{"csv-header-2-data-4", fmt.Sprintf(`{%s,"file_declaration":{"delimiter":",","header_row_index":2,"data_row_index":4,"columns":[{"name":"a"},{"name":"b"}]},%s}`, hdr("csv"), fo), "junk\na,b\nskip\n1,2\n3,4\n"},
+		fs{"csv-data-2147483647", fmt.Sprintf(`{%s,"file_declaration":{"delimiter":",","data_row_index":2147483647,"columns":[{"name":"a"}]},%s}`, hdr("csv"), fo), "x\ny\n"},
 		fs{"csv-data-3", fmt.Sprintf(`{%s,"file_declaration":{"delimiter":",","data_row_index":3,"columns":[{"name":"a"}]},%s}`, hdr("csv"), fo), "x\ny\n1\n2\n"},
 		fs{"fixed-by-rows-2", fmt.Sprintf(`{%s,"file_declaration":{"envelopes":[{"by_rows":2,"columns":[{"name":"a","start_pos":1,"length":2}]}]},%s}`, hdr("fixed-length"), fo), "ab\ncd\nef\ngh\n"},
 		fs{"fixed-by-rows-1", fmt.Sprintf(`{%s,"file_declaration":{"envelopes":[{"columns":[{"name":"a","start_pos":1,"length":2}]}]},%s}`, hdr("fixed-length"), fo), "ab\ncd\n"},
